@@ -4,7 +4,12 @@
 For every function, method and constructor below namespace `xrlpp` that calls a public C function (or forwards to a
 method), record: qualified name, parameter types, the C callee, the forwarded arguments in order (which wrapper
 parameter / `.c_str()` / `&error` / `nullptr` / member `cs` each one is), whether `_process_error(error)` is the next
-statement, and how the C result is released.  `_XRL_FUNCTION` overloads are recorded as uninstantiated patterns and as
+statement, how the C result is released, and the RETURN EXPRESSION as a term over the C call's result (`rv` unchanged,
+`std::complex<double>(rv.re, rv.im)`, `std::string(rv)`, a vector of `std::string(list[i])` for i < the count the C
+function stored, an object built through a constructor of the header …), obtained by evaluating the body symbolically.
+The member-initialiser lists of the value classes and of `Crystal::Struct` (field maps), the C struct declarations they
+read from, the assignments of the public `Struct` constructor to the C struct it builds, and the enumerators of
+`xrl_error_code` are extracted as tables as well.  `_XRL_FUNCTION` overloads are recorded as uninstantiated patterns and as
 instantiations with the argument types of the C prototype of the same name.  `_process_error` itself is read into a
 `PE` description (case labels, exception classes, message passing, release of the error object).
 
@@ -61,6 +66,44 @@ class Extractor:
         self.pe = None
         self.hdr_text = open(os.path.join(repo, 'cplusplus', 'xraylib++.h')).read()
         self.release_fns = {'FreeCompoundData', 'FreeCompoundDataNIST', 'FreeRadioNuclideData', 'xrlFree', 'Crystal_Free'}
+        self.aliases = dict(re.findall(r'using\s+(\w+)\s*=\s*struct\s+(\w+)\s*;', self.hdr_text))      # _compoundDataPod -> compoundData
+        self.class_maps = []; self.own_ctors = []; self.helpers = []; self.class_members = {}; self._call_id = None
+        self.c_structs, self.error_codes = self.c_records()
+
+    # ---- C side: the structs the value classes are built from, and the enumerators of xrl_error_code
+    def c_records(self):
+        inc = ['-I' + self.bdir, '-I' + os.path.join(self.repo, 'include'), '-DHAVE_CONFIG_H']
+        j = json.loads(xapi.clang_ast(inc, '#include "xraylib.h"\n', self.work, 'records.c'))
+        want = {'compoundData', 'compoundDataNIST', 'radioNuclideData', 'Crystal_Struct', 'Crystal_Atom', 'xrlComplex'}
+        recs = {}; anon = {}; codes = []
+        def kind_of(q):
+            q = q.strip()
+            if q in ('int', 'double', 'float'): return 'scalar'
+            if q in ('char *', 'const char *'): return 'string'
+            if q in ('int *', 'double *'): return 'array'
+            if q in ('Crystal_Atom *',): return 'atoms'
+            return 'other'
+        def fields(d): return [(f['name'], kind_of(f['type']['qualType'])) for f in d.get('inner', []) or [] if f.get('kind') == 'FieldDecl']
+        for d in j.get('inner', []):
+            k = d.get('kind')
+            if k == 'RecordDecl' and d.get('completeDefinition'):
+                if d.get('name') in want: recs[d['name']] = fields(d)
+                elif not d.get('name'): anon[d['id']] = fields(d)
+            elif k == 'TypedefDecl' and d.get('name') in want:
+                for n in walk(d):
+                    if n.get('kind') == 'RecordType' and n.get('decl', {}).get('id') in anon: recs[d['name']] = anon[n['decl']['id']]
+            elif k == 'EnumDecl':
+                cs = [c for c in d.get('inner', []) or [] if c.get('kind') == 'EnumConstantDecl']
+                if any(c['name'] == 'XRL_ERROR_MEMORY' for c in cs):
+                    v = -1
+                    for c in cs:
+                        val = [n for n in walk(c) if n.get('kind') == 'ConstantExpr' and 'value' in n]
+                        v = int(val[0]['value']) if val else v + 1
+                        codes.append((c['name'], v))
+        missing = sorted(want - set(recs))
+        if missing: raise ExtractError('C struct declarations not found in include/*.h: %s' % missing)
+        if not codes: raise ExtractError('enum xrl_error_code not found in include/xraylib-error.h')
+        return recs, codes
 
     # ---- pass 1: which templates exist
     def template_names(self):
@@ -96,7 +139,9 @@ class Extractor:
         for d in n.get('inner', []) or []:
             k = d.get('kind')
             if k == 'NamespaceDecl': self.visit_scope(d, prefix + d['name'] + '::')
-            elif k == 'CXXRecordDecl' and d.get('completeDefinition'): self.visit_scope(d, prefix + d['name'] + '::')
+            elif k == 'CXXRecordDecl' and d.get('completeDefinition'):
+                self.class_members[prefix + d['name']] = [x['name'] for x in d.get('inner', []) or [] if x.get('kind') == 'FieldDecl']
+                self.visit_scope(d, prefix + d['name'] + '::')
             elif k == 'FunctionTemplateDecl':
                 fds = [x for x in d.get('inner', []) if x.get('kind') == 'FunctionDecl']
                 for j, fd in enumerate(fds):
@@ -199,7 +244,7 @@ class Extractor:
             s = strip(e['inner'][0]); rd = s.get('referencedDecl', {})
             if rd.get('kind') == 'VarDecl':
                 if rd.get('name') == 'error' and rd.get('type', {}).get('qualType') == 'xrl_error *': return ('err',)
-                return ('outLocal',)
+                return ('outLocal', rd.get('name'), rd.get('id'))
         if k in ('CXXNullPtrLiteralExpr', 'GNUNullExpr'): return ('null',)
         if k == 'MemberExpr' and e.get('name') == 'cs':
             b = strip(e['inner'][0])
@@ -207,6 +252,196 @@ class Extractor:
             rd = b.get('referencedDecl', {})
             if rd.get('id') in pidx: return ('paramCs', pidx[rd['id']])
         return ('other', k)
+
+    # ---- symbolic evaluation of wrapper bodies: the returned value as a term over the C call's result
+    #   ('res',) the value of the forwarded call        ('param', i)              ('outArg', k) the local whose address is C argument k
+    #   ('field', t, name)  t.name / t->name            ('complex', re, im)       ('string', t)  std::string(t)
+    #   ('elems', ctor, t, count)  vector of ctor(t[i]) for i = 0 .. count-1     ('object', cls, t)  cls constructed from t
+    #   ('adopt', t)  stored in the member `cs`         ('none',)                 ('other', why)
+    @staticmethod
+    def norm_ty(n):
+        t = n.get('type', {}); q = t.get('desugaredQualType') or t.get('qualType', '')
+        q = re.sub(r'^const ', '', q.strip()); q = re.sub(r'\s*&&?$', '', q); q = re.sub(r'^const ', '', q)
+        return q
+    @staticmethod
+    def is_string_ty(q):
+        return q in ('std::string', 'std::basic_string<char>', 'std::vector<std::basic_string<char>>::value_type', 'std::vector<std::string>::value_type')
+    @staticmethod
+    def cls_of(q):
+        m = re.fullmatch(r'(?:xrlpp::)?((?:Crystal::)?(?:Struct|Atom)|compoundData|compoundDataNIST|radioNuclideData)', q)
+        if not m: return None
+        c = m.group(1)
+        return 'Crystal::' + c if c in ('Struct', 'Atom') else c
+
+    def sym(self, e, env):
+        e = strip(e) or {}
+        k = e.get('kind')
+        if k == 'DeclRefExpr': return env.get(e.get('referencedDecl', {}).get('id'), ('other', 'name ' + str(e.get('referencedDecl', {}).get('name'))))
+        if k == 'CXXThisExpr': return ('this',)
+        if k == 'IntegerLiteral': return ('lit', int(e.get('value', '0')))
+        if k == 'MemberExpr':
+            b = self.sym(e['inner'][0], env)
+            return b if b[0] == 'other' else ('field', b, e.get('name'))
+        if k == 'ArraySubscriptExpr': return ('index', self.sym(e['inner'][0], env), self.sym(e['inner'][1], env))
+        if k == 'CXXOperatorCallExpr':
+            cal = strip(e['inner'][0])
+            if cal.get('referencedDecl', {}).get('name') == 'operator[]' and len(e['inner']) == 3:
+                return ('index', self.sym(e['inner'][1], env), self.sym(e['inner'][2], env))
+            return ('other', 'operator call')
+        if k == 'UnaryExprOrTypeTraitExpr' and e.get('name') == 'sizeof': return ('sizeof', e.get('argType', {}).get('qualType', '?'))
+        if k == 'BinaryOperator' and e.get('opcode') in ('*', '+'):
+            return ({'*': 'mul', '+': 'add'}[e['opcode']], self.sym(e['inner'][0], env), self.sym(e['inner'][1], env))
+        if k in ('CXXTemporaryObjectExpr', 'CXXConstructExpr'):
+            args = [a for a in e.get('inner', []) or [] if a.get('kind') != 'CXXDefaultArgExpr']
+            ty = self.norm_ty(e)
+            if not args: return ('empty', ty)
+            if ty.startswith('std::complex<double>') and len(args) == 2: return ('complex', self.sym(args[0], env), self.sym(args[1], env))
+            if len(args) == 1:
+                a = self.sym(args[0], env); aty = self.norm_ty(strip(args[0]))
+                if aty == ty or (self.cls_of(aty) and self.cls_of(aty) == self.cls_of(ty)): return a          # copy / move construction: the same value
+                if self.is_string_ty(ty) and aty in ('char *', 'const char *'): return ('string', a)
+                if self.cls_of(ty): return ('object', self.cls_of(ty), a)                                # a converting constructor of the header
+                return ('other', 'construction of %s from %s' % (ty, aty))
+            if len(args) == 2 and ty.startswith('std::vector<'):                                           # vector(first, last)
+                lo = self.sym(args[0], env); hi = self.sym(args[1], env)
+                if hi[0] == 'add' and hi[1] == lo: return ('range', lo, hi[2])
+                return ('other', 'vector range whose end is not <begin> + <count>')
+            return ('other', 'construction of %s from %d arguments' % (ty, len(args)))
+        if k == 'CallExpr':
+            if e.get('id') == self._call_id: return ('res',)
+            fn = strip(e['inner'][0]).get('referencedDecl', {}).get('name')
+            a = [self.sym(x, env) for x in e['inner'][1:]]
+            if fn == '_create_atom_vector' and len(a) == 2: return ('atomvec', a[0], a[1])
+            if fn == 'xrl_strdup' and len(a) == 1: return ('strdup', a[0])
+            if fn == 'xrl_malloc' and len(a) == 1: return ('malloc', a[0])
+            return ('other', 'call of %s' % fn)
+        if k == 'CXXMemberCallExpr':
+            if e.get('id') == self._call_id: return ('res',)
+            me = strip(e['inner'][0])
+            if me.get('kind') == 'MemberExpr' and me.get('name') in ('size', 'c_str') and len(e['inner']) == 1:
+                return ({'size': 'size', 'c_str': 'cstr'}[me['name']], self.sym(me['inner'][0], env))
+            return ('other', 'member call')
+        return ('other', str(k))
+
+    def for_loop(self, st, env):
+        """`for (int i = 0; i < N; i++) { … }` -> (ok, count term, body statements, environment inside the body)"""
+        inner = st.get('inner', []) or []
+        if len(inner) != 5: return False, ('other', 'for'), [], env
+        init, _, cond, inc, body = inner
+        ivar = None
+        if init.get('kind') == 'DeclStmt' and len(init.get('inner', [])) == 1 and init['inner'][0].get('kind') == 'VarDecl':
+            v = init['inner'][0]; i0 = [x for x in v.get('inner', []) if isinstance(x, dict)]
+            if i0 and strip(i0[0]).get('kind') == 'IntegerLiteral' and int(strip(i0[0]).get('value', '1')) == 0: ivar = v['id']
+        env2 = dict(env)
+        if ivar: env2[ivar] = ('idx',)
+        ok = ivar is not None
+        count = ('other', 'loop bound')
+        c = strip(cond) or {}
+        if c.get('kind') == 'BinaryOperator' and c.get('opcode') == '<' and self.sym(c['inner'][0], env2) == ('idx',): count = self.sym(c['inner'][1], env)
+        else: ok = False
+        u = strip(inc) or {}
+        if not (u.get('kind') == 'UnaryOperator' and u.get('opcode') == '++' and self.sym(u['inner'][0], env2) == ('idx',)): ok = False
+        stmts = body.get('inner', []) if body.get('kind') == 'CompoundStmt' else [body]
+        return ok, count, stmts or [], env2
+
+    def eval_body(self, stmts, pidx, call_id, outpos):
+        """-> (return term, [(lhs term, rhs term)] assignments of the body, [(count, [(lhs, rhs)])] assignment loops)"""
+        self._call_id = call_id
+        env = {pid: ('param', i) for pid, i in pidx.items()}
+        ret = ('none',); assigns = []; loops = []
+        for st in stmts:
+            k = st.get('kind')
+            if k == 'DeclStmt':
+                for v in st.get('inner', []) or []:
+                    if v.get('kind') != 'VarDecl': continue
+                    ini = [x for x in v.get('inner', []) or [] if isinstance(x, dict) and x.get('kind')]
+                    if v['id'] in outpos: env[v['id']] = ('outArg', outpos[v['id']])
+                    elif v.get('init') and ini: env[v['id']] = self.sym(ini[0], env)
+                    else: env[v['id']] = ('other', 'uninitialised local ' + v.get('name', '?'))
+            elif k == 'ForStmt':
+                ok, count, body, env2 = self.for_loop(st, env)
+                las = []
+                for b in body:
+                    bs = strip(b) or {}
+                    if bs.get('kind') == 'CXXMemberCallExpr':
+                        me = strip(bs['inner'][0])
+                        if me.get('kind') == 'MemberExpr' and me.get('name') == 'push_back' and len(bs['inner']) == 2:
+                            vid = strip(me['inner'][0]).get('referencedDecl', {}).get('id')
+                            el = self.sym(bs['inner'][1], env2)
+                            cur = env.get(vid, ('other', 'push_back on a non-local'))
+                            if not ok or cur[0] != 'empty': env[vid] = ('other', 'loop shape')
+                            elif el[0] == 'string' and el[1][0] == 'index' and el[1][2] == ('idx',): env[vid] = ('elems', 'std::string', el[1][1], count)
+                            elif el[0] == 'object' and el[2][0] == 'index' and el[2][2] == ('idx',): env[vid] = ('elems', el[1], el[2][1], count)
+                            else: env[vid] = ('other', 'pushed element is not <ctor>(<array>[i])')
+                    elif bs.get('kind') == 'BinaryOperator' and bs.get('opcode') == '=':
+                        las.append((self.sym(bs['inner'][0], env2), self.sym(bs['inner'][1], env2)))
+                    elif bs.get('kind') == 'CallExpr' and strip(bs['inner'][0]).get('referencedDecl', {}).get('name') in self.release_fns: pass
+                    else: las.append((('other', 'statement %s in a loop' % bs.get('kind')), ('other', '')))
+                if las: loops.append((count if ok else ('other', 'loop shape'), las))
+            elif k == 'ReturnStmt':
+                ri = [x for x in st.get('inner', []) or [] if isinstance(x, dict) and x.get('kind')]
+                ret = self.sym(ri[0], env) if ri else ('none',)
+            else:
+                bs = strip(st) or {}
+                if bs.get('kind') == 'BinaryOperator' and bs.get('opcode') == '=':
+                    lhs = self.sym(bs['inner'][0], env); rhs = self.sym(bs['inner'][1], env)
+                    if lhs == ('field', ('this',), 'cs') and rhs == ('res',): ret = ('adopt', ('res',))
+                    else: assigns.append((lhs, rhs))
+        return ret, assigns, loops
+
+    def ctor_tables(self, d, name, sig, params, pidx, stmts):
+        """member-initialiser list of a constructor -> class map; body of the public Struct constructor -> own-constructor table"""
+        env = {pid: ('param', i) for pid, i in pidx.items()}
+        self._call_id = None
+        inits = []
+        for x in d.get('inner', []) or []:
+            if x.get('kind') != 'CXXCtorInitializer' or 'anyInit' not in x: continue
+            m = x['anyInit'].get('name'); ini = [y for y in x.get('inner', []) or [] if isinstance(y, dict) and y.get('kind')]
+            t = self.sym(ini[0], env) if ini else ('other', 'no initialiser')
+            def fld(u): return u[2] if u[0] == 'field' and u[1] == ('param', 0) else None
+            if fld(t): f = ('scalar', fld(t))
+            elif t[0] == 'string' and fld(t[1]): f = ('string', fld(t[1]))
+            elif t[0] == 'range' and fld(t[1]) and fld(t[2]): f = ('range', fld(t[1]), fld(t[2]))
+            elif t[0] == 'atomvec' and fld(t[1]) and fld(t[2]): f = ('atoms', fld(t[1]), fld(t[2]))
+            elif t[0] == 'param': f = ('adopt',) if (m == 'cs' and params and params[0]['type']['qualType'] == 'Crystal_Struct *') else ('param', t[1])
+            elif t[0] == 'size' and t[1][0] == 'param': f = ('sizeOf', t[1][1])
+            else: f = ('other', str(t))
+            inits.append((m, f))
+        pty = params[0]['type']['qualType'] if params else ''
+        src = re.sub(r'^const ', '', re.sub(r'\s*[\*&]$', '', pty.strip()))
+        src = self.aliases.get(src, src)
+        cls = name[:-len(sig)] if sig else name
+        cls = cls.rsplit('::', 1)[0]                  # "Crystal::Struct::Struct" -> "Crystal::Struct"
+        if self.cls_of(src) == cls and '_' not in pty: src = 'self'          # copy constructor: the parameter is an object of the class itself
+        self.class_maps.append(dict(cls=cls, sig=sig, src=src if len(params) == 1 else '', inits=inits, line=self.line_of(d)))
+        if any(f == ('other',) or f[0] == 'other' for _, f in inits): self.unclassified.append('%s: member initialiser not classified: %s' % (name, [i for i in inits if i[1][0] == 'other']))
+        # the public constructor builds the C struct itself
+        if any(n.get('kind') == 'CallExpr' and strip(n['inner'][0]).get('referencedDecl', {}).get('name') == 'xrl_malloc' for s_ in stmts for n in walk(s_)):
+            _, assigns, loops = self.eval_body(stmts, pidx, None, {})
+            def cs_field(l):
+                if l == ('field', ('this',), 'cs'): return ''
+                if l[0] == 'field' and l[1] == ('field', ('this',), 'cs'): return l[2]
+                return None
+            def src_of(r):
+                if r[0] == 'param': return ('param', r[1])
+                if r[0] == 'field' and r[1] == ('this',): return ('member', r[2])
+                if r[0] == 'strdup' and r[1][0] == 'cstr' and r[1][1][0] == 'param': return ('strdupParam', r[1][1][1])
+                if r[0] == 'malloc' and r[1] == ('sizeof', 'Crystal_Struct'): return ('allocStruct',)
+                if r[0] == 'malloc' and r[1][0] == 'mul' and r[1][1] == ('sizeof', 'Crystal_Atom'): return ('allocAtoms', src_of(r[1][2]))
+                return ('other', str(r))
+            own = dict(sig=sig, assigns=[], loops=[], line=self.line_of(d))
+            for l, r in assigns:
+                f = cs_field(l)
+                own['assigns'].append((f if f is not None else '?', src_of(r) if f is not None else ('other', str(l))))
+            for count, las in loops:
+                items = []
+                for l, r in las:
+                    # cs->atom[i].F = <vector parameter>[i].G
+                    ok = (l[0] == 'field' and l[1][0] == 'index' and l[1][2] == ('idx',) and cs_field(l[1][1]) is not None and
+                          r[0] == 'field' and r[1][0] == 'index' and r[1][2] == ('idx',) and r[1][1][0] == 'param')
+                    items.append((cs_field(l[1][1]), l[2], r[2], ('param', r[1][1][1])) if ok else ('?', '?', '?', ('other', '%s = %s' % (l, r))))
+                own['loops'].append((src_of(count), items))
+            self.own_ctors.append(own)
 
     def visit_fn(self, d, prefix, kind):
         params = [x for x in d.get('inner', []) if x.get('kind') == 'ParmVarDecl']
@@ -240,32 +475,39 @@ class Extractor:
                         fn = rd.get('name')
                         if fn in self.release_fns: releases.append(fn)
                         elif fn in self.pnames and fn not in ('xrl_malloc', 'xrl_strdup', 'xrl_strndup'):
-                            ccalls.append((si, fn, [self.classify_arg(a, pidx, None) for a in n['inner'][1:]]))
+                            ccalls.append((si, fn, [self.classify_arg(a, pidx, None) for a in n['inner'][1:]], n.get('id')))
                 elif n.get('kind') == 'CXXMemberCallExpr':
                     me = strip(n['inner'][0])
                     if me.get('kind') == 'MemberExpr' and me.get('name') != 'c_str':
                         b = strip(me['inner'][0]); rd = b.get('referencedDecl', {})
                         if rd.get('id') in pidx and ptys[pidx[rd['id']]] == 'cs':
-                            dcalls.append((si, me.get('name'), pidx[rd['id']], [self.classify_arg(a, pidx, None) for a in n['inner'][1:]]))
+                            dcalls.append((si, me.get('name'), pidx[rd['id']], [self.classify_arg(a, pidx, None) for a in n['inner'][1:]], n.get('id')))
         line = self.line_of(d)
         if kind == 'dtor':
             self.add(**dict(name=name, kind='dtor', params=[], callee=releases[0] if releases else '', args=[('thisCs',)], checked=False,
-                                      release=releases[0] if releases else '', line=line))
+                                      release=releases[0] if releases else '', ret=('none',), line=line))
             return
+        if kind == 'ctor': self.ctor_tables(d, name, sig, params, pidx, stmts)
         if not ccalls and not dcalls:
             if kind == 'ctor' and adopt:
-                self.add(name=name, kind='ctor', params=ptys, callee='', args=[], checked=False, release='adopt', line=line)
+                self.add(name=name, kind='ctor', params=ptys, callee='', args=[], checked=False, release='adopt', ret=('none',), line=line)
+            elif kind == 'plain' and d['name'].startswith('_'):
+                # helper of the header without a C call (_create_atom_vector): its result as a term over its parameters
+                r, _, _ = self.eval_body(stmts, pidx, None, {})
+                self.helpers.append(dict(name=name, params=[p_['type']['qualType'] for p_ in params], ret=r, line=line))
+                if r[0] == 'other': self.unclassified.append('%s: returned value not classified: %s' % (name, r))
             elif kind == 'ctor' and any(n.get('kind') == 'CallExpr' and strip(n['inner'][0]).get('referencedDecl', {}).get('name') == 'xrl_malloc' for s in stmts for n in walk(s)):
-                self.add(name=name, kind='ctor', params=ptys, callee='xrl_malloc', args=[], checked=False, release='own', line=line)
+                self.add(name=name, kind='ctor', params=ptys, callee='xrl_malloc', args=[], checked=False, release='own', ret=('none',), line=line)
             return       # helper without a C call (Atom constructor, _create_atom_vector)
         if dcalls and not ccalls:
             if len(dcalls) != 1: self.unclassified.append('%s: %d forwarded method calls' % (name, len(dcalls)))
-            si, mname, obj, args = dcalls[0]
-            self.add(name=name, kind='delegate', params=ptys, callee=mname, args=[('param', obj)] + args, checked=False, release='', line=line)
+            si, mname, obj, args, cid = dcalls[0]
+            r, _, _ = self.eval_body(stmts, pidx, cid, {})
+            self.add(name=name, kind='delegate', params=ptys, callee=mname, args=[('param', obj)] + args, checked=False, release='', ret=r, line=line)
             return
         if len(ccalls) != 1:
             self.unclassified.append('%s calls %d C functions: %s' % (name, len(ccalls), [c[1] for c in ccalls]));
-        si, fn, args = ccalls[0]
+        si, fn, args, cid = ccalls[0]
         # is the next top-level statement `_process_error(error)`?
         checked = False
         if isinstance(si, int) and si + 1 < len(stmts):
@@ -286,7 +528,10 @@ class Extractor:
             release = ''
         for a in args:
             if a[0] in ('other', 'local'): self.unclassified.append('%s: argument of %s not classified: %s' % (name, fn, a))
-        self.add(name=name, kind=kind, params=ptys, callee=fn, args=args, checked=checked, release=release, line=line)
+        # the value handed back, as a term over the C result (the locals passed by address are named by their argument position)
+        outpos = {a[2]: k_ for k_, a in enumerate(args) if a[0] == 'outLocal'}
+        rterm, _, _ = self.eval_body(stmts, pidx, cid, outpos)
+        self.add(name=name, kind=kind, params=ptys, callee=fn, args=args, checked=checked, release=release, ret=rterm, line=line)
 
 # ------------------------------------------------------------------------------------------------ emit
 
@@ -295,6 +540,33 @@ def lean_ty(t): return '.' + (t if t in ('int', 'double', 'str', 'errpp', 'cs', 
 def lean_arg(a):
     if a[0] in ('param', 'cstr', 'pack', 'paramCs'): return '.%s %d' % (a[0], a[1])
     if a[0] in ('err', 'null', 'thisCs', 'outLocal'): return '.' + a[0]
+    return '.other'
+
+def lean_ret(t):
+    k = t[0]
+    if k in ('res', 'none'): return '.' + k
+    if k in ('param', 'outArg'): return '(.%s %d)' % (k, t[1])
+    if k == 'field': return '(.field %s %s)' % (lean_ret(t[1]), lean_str(t[2]))
+    if k == 'complex': return '(.complex %s %s)' % (lean_ret(t[1]), lean_ret(t[2]))
+    if k in ('string', 'adopt'): return '(.%s %s)' % (k, lean_ret(t[1]))
+    if k == 'elems': return '(.elems %s %s %s)' % (lean_str(t[1]), lean_ret(t[2]), lean_ret(t[3]))
+    if k == 'object': return '(.object %s %s)' % (lean_str(t[1]), lean_ret(t[2]))
+    return '.other'
+
+def lean_finit(f):
+    k = f[0]
+    if k in ('scalar', 'string'): return '.%s %s' % (k, lean_str(f[1]))
+    if k in ('range', 'atoms'): return '.%s %s %s' % (k, lean_str(f[1]), lean_str(f[2]))
+    if k in ('param', 'sizeOf'): return '.%s %d' % (k, f[1])
+    if k == 'adopt': return '.adopt'
+    return '.other'
+
+def lean_cssrc(c):
+    k = c[0]
+    if k in ('param', 'strdupParam'): return '(.%s %d)' % (k, c[1])
+    if k == 'member': return '(.member %s)' % lean_str(c[1])
+    if k == 'allocStruct': return '.allocStruct'
+    if k == 'allocAtoms': return '(.allocAtoms %s)' % lean_cssrc(c[1])
     return '.other'
 
 def emit_lean(ex, path):
@@ -308,12 +580,30 @@ def emit_lean(ex, path):
         out.append('def %s : List %s := %s\n' % (name, ty, ' ++ '.join(names)))
     chunks('cProtos', 'CProto', ['{ name := %s, ret := %s, params := [%s] }' % (lean_str(p['name']), lean_ty(p['ret']), ', '.join(lean_ty(t) for _, t in p['params']))
                                   for p in ex.protos])
-    chunks('wrappers', 'Wrapper', ['{ scope := %s, base := %s, sig := %s, kind := .%s, params := [%s], callee := %s, args := [%s], checked := %s, release := %s }' % (
+    chunks('wrappers', 'Wrapper', ['{ scope := %s, base := %s, sig := %s, kind := .%s, params := [%s], callee := %s, args := [%s], checked := %s, release := %s, ret := %s }' % (
         lean_str(w['scope']), lean_str(w['base']), lean_str(w['sig']), w['kind'], ', '.join(lean_ty(t) for t in w['params']), lean_str(w['callee']), ', '.join(lean_arg(a) for a in w['args']),
-        'true' if w['checked'] else 'false', lean_str(w['release'])) for w in ex.wrappers if w['kind'] != 'dtor'])
+        'true' if w['checked'] else 'false', lean_str(w['release']), lean_ret(w['ret'])) for w in ex.wrappers if w['kind'] != 'dtor'])
     dt = [w for w in ex.wrappers if w['kind'] == 'dtor']
     out.append('/-- release function called by `Crystal::Struct::~Struct` on the member `cs` -/')
     out.append('def structDtorRelease : String := %s\n' % lean_str(dt[0]['release'] if dt else ''))
+    out.append('/-- constructors of the classes of the header: member initialisers (field maps) -/')
+    out.append('def classMaps : List ClassMap := [\n  %s]\n' % ',\n  '.join(
+        '{ cls := %s, sig := %s, src := %s,\n    inits := [%s] }' % (lean_str(m['cls']), lean_str(m['sig']), lean_str(m['src']),
+            ', '.join('(%s, %s)' % (lean_str(n), lean_finit(f)) for n, f in m['inits'])) for m in ex.class_maps))
+    out.append('/-- non-static data members of the classes of the header, in declaration order -/')
+    out.append('def classMembers : List (String × List String) := [\n  %s]\n' % ',\n  '.join(
+        '(%s, [%s])' % (lean_str(c), ', '.join(lean_str(x) for x in ms)) for c, ms in ex.class_members.items()))
+    out.append('/-- the C structs of include/*.h the classes are built from -/')
+    out.append('def cStructs : List CStruct := [\n  %s]\n' % ',\n  '.join(
+        '{ name := %s, fields := [%s] }' % (lean_str(n), ', '.join('(%s, .%s)' % (lean_str(f), k) for f, k in fs)) for n, fs in sorted(ex.c_structs.items())))
+    out.append('/-- body of the public constructor(s) of `Crystal::Struct` that build the C struct from values -/')
+    out.append('def ownCtors : List OwnCtor := [\n  %s]\n' % ',\n  '.join(
+        '{ sig := %s,\n    assigns := [%s],\n    loops := [%s] }' % (lean_str(o['sig']), ', '.join('(%s, %s)' % (lean_str(f), lean_cssrc(c)) for f, c in o['assigns']),
+            ', '.join('(%s, [%s])' % (lean_cssrc(cnt), ', '.join('{ arr := %s, fld := %s, src := %s, vec := %s }' % (lean_str(a), lean_str(f), lean_str(g), lean_cssrc(v)) for a, f, g, v in items))
+                      for cnt, items in o['loops'])) for o in ex.own_ctors))
+    out.append('def helpers : List Helper := [%s]\n' % ', '.join('{ name := %s, ret := %s }' % (lean_str(h['name']), lean_ret(h['ret'])) for h in ex.helpers))
+    out.append('/-- enumerators of `xrl_error_code` (include/xraylib-error.h) with their values -/')
+    out.append('def errorCodes : List (String × Nat) := [%s]\n' % ', '.join('(%s, %d)' % (lean_str(n), v) for n, v in ex.error_codes))
     pe = ex.pe
     out.append('/-- `_process_error` (xraylib++.h:%s) as extracted -/' % pe['line'])
     out.append('def pe : PE :=\n  { cases := [%s],\n    dflt := (.%s, %s),\n    frees := %s }\n' % (
@@ -370,7 +660,9 @@ def main():
     emit_lean(ex, os.path.join(gen, 'Tables.lean'))
     emit_cppdrv(ex, os.path.join(aux, 'cppdrv_gen.inc'))
     xapi.gen_c_driver(ex.protos, os.path.join(aux, 'xdrv_gen.inc'))
-    json.dump(dict(protos=ex.protos, wrappers=ex.wrappers, pe=ex.pe, unclassified=ex.unclassified, generic=[w['name'] for w, _ in generic_wrappers(ex)]), open(os.path.join(aux, 'cpp_tables.json'), 'w'), indent=1)
+    json.dump(dict(protos=ex.protos, wrappers=ex.wrappers, pe=ex.pe, unclassified=ex.unclassified, generic=[w['name'] for w, _ in generic_wrappers(ex)],
+                   class_maps=ex.class_maps, class_members=ex.class_members, c_structs=ex.c_structs, own_ctors=ex.own_ctors, helpers=ex.helpers,
+                   error_codes=ex.error_codes), open(os.path.join(aux, 'cpp_tables.json'), 'w'), indent=1)
     print('extract_cpp: %d C prototypes, %d wrapper entries, pe=%s' % (len(ex.protos), len(ex.wrappers), ex.pe), file=sys.stderr)
     sys.exit(3 if ex.unclassified else 0)
 
